@@ -136,15 +136,18 @@ def gen_c05(ctx, quick):
         full = boot(rf, 0, list(range(1, rf)))
         for k in range(1, rf):
             for sub in itertools.combinations(range(rf), k):
-                io = ev("write", wid=1, off=0, len=4096, fs=[dict(a=a, k=("writeap" if a % 2 else "write")) for a in sub])
+                ios = [ev("write", wid=1, off=0, len=4096, fs=[dict(a=a, k=("writeap" if a % 2 else "write")) for a in sub]),
+                       ev("sync", fs=[dict(a=a, k="sync") for a in sub]), ev("unmap", fs=[dict(a=a, k="unmap") for a in sub])]
+                io = ios[len(cases) // 5 % 3] if quick else None
                 mons = [ev("monfail", a=a) for a in sub]
                 rems = [ev("remove", a=a) for a in sub]
                 tail = [ev("write", wid=2, off=0, len=4096), ev("read", off=0, len=4096)]
                 back = []
                 a0 = sub[0]
                 back = [ev("addcheck", a=a0), ev("addcommit", a=a0), ev("write", wid=3, off=0, len=4096), ev("verify", a=a0)]
-                for order in ([io] + mons, mons + [io], [io] + rems, rems + [io], mons[:1] + [io] + mons[1:]):
-                    cases.append(dict(rf=rf, world=world(rf), events=full + order + [ev("monfire", a=a) for a in sub] + tail + back))
+                for io in ([io] if quick else ios):
+                    for order in ([io] + mons, mons + [io], [io] + rems, rems + [io], mons[:1] + [io] + mons[1:]):
+                        cases.append(dict(rf=rf, world=world(rf), events=full + order + [ev("monfire", a=a) for a in sub] + tail + back))
     if quick and len(cases) > 140:
         ctx.rng.shuffle(cases)
         cases = cases[:140]
@@ -234,6 +237,15 @@ def gen_c18(ctx, quick):
                                                                      ev("sync"), ev("snapshot", name=1), ev("monfire", a=1), ev("write", wid=2, off=0, len=4096)]))
         cases.append(dict(rf=rf, world=world(rf), events=full + [ev("snapshot", name=1, fs=fl((1, "snap"))), ev("setmode", a=1, mode="RW"),
                                                                  ev("write", wid=1, off=0, len=4096), ev("read", off=0, len=4096), ev("read", off=0, len=4096), ev("monfire", a=1)]))
+    # an admission that fails at one of its calls to the newcomer (connect, size, snapshot, mode): the list, the
+    # backends and the I/O set must still agree, and a later admission of the same address must work
+    for rf in (2, 3):
+        pre = boot(rf, 0, list(range(1, rf - 1)))
+        a = rf - 1
+        for k in ("setmodewo", "snap", "create", "size"):
+            for tail in ([], [ev("addcheck", a=a), ev("addcommit", a=a), ev("write", wid=2, off=0, len=4096), ev("verify", a=a)]):
+                cases.append(dict(rf=rf, world=world(rf + 1), events=pre + [ev("addcheck", a=a), ev("addcommit", a=a, fs=fl((a, k))),
+                                                                            ev("write", wid=1, off=0, len=4096), ev("read", off=0, len=4096), ev("sync")] + tail))
     # interleaved admissions
     for rf in (2, 3):
         cases.append(dict(rf=rf, world=world(rf + 2), events=boot(rf, 0, list(range(1, rf - 1))) + [
